@@ -502,7 +502,8 @@ def _eval_with_unix(e: ast.AST, unix: bool, ce: ConstEval, m: Any) -> Any:
 def _ports_flag_check(ch: Checker) -> None:
     prog = ch.prog
     init = prog.method('FlagParser', 'initialize')
-    sites = [st for st in walk_no_nested(init.node) if isinstance(st, ast.Assign) and len(st.targets) == 1 and attr_chain(st.targets[0]) == 'args.ports']
+    # the store into <namespace>.ports (the namespace local may have any name)
+    sites = [st for st in walk_no_nested(init.node) if isinstance(st, ast.Assign) and len(st.targets) == 1 and isinstance(st.targets[0], ast.Attribute) and st.targets[0].attr == 'ports' and isinstance(st.targets[0].value, ast.Name)]
     if not sites:
         ch.bad('C19.5', init, 'args.ports', 'FlagParser.initialize no longer stores args.ports')
         return
@@ -529,7 +530,7 @@ def _ports_flag_check(ch: Checker) -> None:
                     lossy = 'a filtering comprehension'
                 if isinstance(n_, ast.Call) and (attr_chain(n_.func) or '').endswith('chain.from_iterable'):
                     chained = True
-                if isinstance(n_, ast.Name) and isinstance(n_.ctx, ast.Load) and len(defs.get(n_.id, [])) == 1 and n_.id not in ('args', 'opts', 'ports') and not any(x is defs[n_.id][0] for x in seen):
+                if isinstance(n_, ast.Name) and isinstance(n_.ctx, ast.Load) and len(defs.get(n_.id, [])) == 1 and not any(x is defs[n_.id][0] for x in seen):
                     seen.append(defs[n_.id][0])
                     todo.append(defs[n_.id][0])
         if lossy:
